@@ -110,6 +110,34 @@ func streamPaths(s *stream.Stream, c *streamCtx) error {
 			}
 		}
 	}
+	// the nested-module cache: random query sequences against ONE configuration each (the sync.Map of
+	// Config.IsBelongNestedModule is filled in the order of the queries); root = paths-root with the
+	// nested modules nested/, pkg/nested/, sub/l0/ created above, plus look-alike siblings
+	for _, d := range []string{"nestedx/sub", "pkg/nestedapi", "sub/l0x", "sub/l", "plain/deep/er"} {
+		os.MkdirAll(filepath.Join(root, d), 0755)
+	}
+	qpool := []string{".", "nested", "nested/sub", "nested/sub/x", "nestedx", "nestedx/sub", "pkg", "pkg/nested", "pkg/nested/sub", "pkg/nestedapi",
+		"sub", "sub/l0", "sub/l0/sub", "sub/l0x", "sub/l", "plain", "plain/deep", "plain/deep/er", "does/not/exist"}
+	nSeq := 300
+	if c.thorough() {
+		nSeq = 5000
+	}
+	for i := 0; i < nSeq; i++ {
+		cfg := &config.Config{SkipNestedModules: true, DiffPrecision: 2, AppVersion: "t", AppName: "a"}
+		if err := cfg.Validate(); err != nil {
+			return err
+		}
+		var qs, ans []string
+		for k := 2 + c.rng.Intn(7); k > 0; k-- {
+			q := qpool[c.rng.Intn(len(qpool))]
+			qs = append(qs, q)
+			ans = append(ans, b01(cfg.IsBelongNestedModule(q)))
+		}
+		req := "ncache " + strings.Join(nested, " ") + " | " + strings.Join(qs, " ")
+		a := strings.Join(ans, " ")
+		s.Case(req, a, "judge:"+req+" | "+a, strings.Contains(a, "1"))
+		s.Count("ncache")
+	}
 	// random trees through the real prepareFiles
 	nTrees := 30
 	if c.thorough() {
